@@ -180,9 +180,10 @@ let () =
                 (match probe t key (Z0, Z0) with
                  | Ok (t1, (rk, rd)) ->
                      let fin t2 = tt := Some t2;
-                       print_endline ("R " ^ hex_of_z rk ^ " " ^ hex_of_z rd ^ " " ^ bucket_line t2 key ^ " " ^ bucket_line t2 rk) in
+                       print_endline ("R " ^ hex_of_z rk ^ " " ^ hex_of_z rd ^ " " ^ bucket_line t2 key ^
+                                      (if Z.eqb (getType rd) Z0 then "" else " " ^ bucket_line t2 rk)) in
                      if Z.eqb (getType rd) Z0 then fin t1
-                     else if overrun t1 rk then print_endline "OOR"
+                     else if overrun t1 rk then (tt := Some t1; print_endline "OOR")
                      else (match setBusy t1 (rk, rd) (a 1) with
                            | Ok t2 -> fin t2
                            | OutOfRange j -> print_endline ("ERR out of range " ^ hex_of_z j)
@@ -209,6 +210,7 @@ let () =
                 (match tbLoad t (a 0) (a 1) with
                  | Ok v -> print_endline ("Y " ^ hex_of_z (Z.div b (z_of_int 16)) ^ " " ^ hex_of_z v)
                  | _ -> print_endline "OOR")
+            | "TBSUM" -> print_endline "T ?"       (* tablebase bytes are not modelled; checked against the Spec by the check *)
             | c -> print_endline ("ERR unknown command " ^ c)))
     done
   with End_of_file -> ())
